@@ -912,7 +912,8 @@ class Walker:
             return mk_ext("max", list(args))
         if fname in MIN_FUNCS and len(args) >= 2 and not kwargs:
             return mk_ext("min", list(args))
-        if fname in ALLOC_FUNCS:
+        if fname in ALLOC_FUNCS or (fname and fname.startswith(("numpy.random.", "random."))
+                                    and not fname.endswith(".seed")):
             self._site += 1
             t = ("alloc", fname, args, kwargs, self._site)
             self.emit("call", e, target=fn, value=t, name=fname, args=args, kwargs=kwargs)
